@@ -228,16 +228,16 @@ def specCheck (line : String) : String :=
     | ("cstep" :: _) :: _ => specCstep (Q1t.SimParse.fields req) ans
     | ("ffisame" :: _) :: _ =>
       if ans.trimAscii.toString = "same" then "ok"
-      else s!"fail conditional-through-c-interface circuit built through the C interface behaves differently from the Rust-API circuit: {ans.take 120}"
+      else s!"fail conditional-through-c-interface circuit built through the C interface behaves differently from the Rust-API circuit: {ans.trimAscii.toString.take 120}"
     | ("ffierr" :: _) :: _ =>
       if ans.trimAscii.toString = "same" then "ok"
-      else s!"fail conditional-through-c-interface invalid control bits not refused alike: {ans.take 120}"
+      else s!"fail conditional-through-c-interface invalid control bits not refused alike: {ans.trimAscii.toString.take 120}"
     | (kind :: _) :: _ =>
       if kind.startsWith "cstep-unexpected" then
-        s!"fail conditional-run-did-not-complete a valid circuit with a conditional gate ended in {ans.take 60}"
+        s!"fail conditional-run-did-not-complete a valid circuit with a conditional gate ended in {ans.trimAscii.toString.take 60}"
       else
       if kind.startsWith "condrun-unexpected" then
-        s!"fail conditional-run-did-not-complete a valid circuit with a conditional gate ended in {ans.take 60}"
+        s!"fail conditional-run-did-not-complete a valid circuit with a conditional gate ended in {ans.trimAscii.toString.take 60}"
       else "fail bad-request"
     | _ => "fail bad-request"
   | _ => "fail bad-line"
